@@ -9,6 +9,8 @@
 //!                                   each recovery all clones have overlapping requests in flight against a slow replier
 //!   rqreuse <n>                     a request times out, every requestor stream of the topic closes, a new requestor
 //!                                   opens and calls; the replier then sends the late reply before the new one (n rounds)
+//!   rqstall <n> <kib>               a replier that registers and then never reads; a requestor (400 ms timeout) issues n
+//!                                   requests of <kib> KiB one after the other: each must fail with a timeout in time
 //! `<order>` (written by the harness) is the arrival order as `stream.clone` tokens.
 //! Implementation line: per arrival the outcome of that call (`ok`, `timeout`, `wrong:<payload>`, `err:<e>`),
 //! then `| ` + the outcomes of the follow-up calls per stream.
@@ -179,6 +181,33 @@ async fn run_cut(addr: SocketAddr, certs: &Certs, clones: usize, outages: usize)
     Ok(outs.join(","))
 }
 
+async fn run_stall(addr: SocketAddr, certs: &Certs, n: usize, kib: usize) -> anyhow::Result<String> {
+    let topic = format!("/verif/rpc{}", TOPIC.fetch_add(1, Ordering::SeqCst));
+    let conn = raw_connect(addr, &certs.client("ca.der"), Some((&certs.client("localhost.der"), &certs.client("localhost.key.der")))).await?;
+    let mut rs = raw_stream(&conn).await?;
+    rs.send(Frame::RegisterReplier(ReplierPayload { topic: TopicName::try_from(topic.as_str())? })).await?;
+    match rs.next().await { Some(Ok(Frame::Ok)) => {}, other => anyhow::bail!("replier registration answered {other:?}") }
+    // from here on the replier reads nothing
+    tokio::time::sleep(Duration::from_millis(30)).await;
+    let client = client(addr, certs, BackoffStrategy::constant().with_max_attempts(0)).await?;
+    let rq = client.requestor(&topic).with_request_encoder(StringCodec).with_reply_decoder(StringCodec).with_request_timeout(400u64)?.open().await?;
+    let body = "x".repeat(kib * 1024);
+    let mut outs = vec![];
+    for i in 0..n {
+        let mut r = rq.clone();
+        let own = format!("{i}|{body}");
+        // the call runs in a task of its own: one that never returns does not take the harness with it
+        let h = tokio::spawn(async move { r.request(own).await });
+        match tokio::time::timeout(Duration::from_secs(4), h).await {
+            Err(_) => { outs.push("hang".to_string()); break; }
+            Ok(Err(_)) => outs.push("panic".to_string()),
+            Ok(Ok(res)) => outs.push(outcome(&res, "?")),
+        }
+    }
+    drop(rs);
+    Ok(outs.join(","))
+}
+
 async fn run_reuse(addr: SocketAddr, certs: &Certs, rounds: usize) -> anyhow::Result<String> {
     let mut outs = vec![];
     for _ in 0..rounds {
@@ -225,16 +254,20 @@ pub fn run(cfg: &Cfg) {
         cases.push("rqcut 3 1".into());
         cases.push("rqcut 2 2".into());
         cases.push("rqreuse 2".into());
+        cases.push("rqstall 3 1".into());
+        cases.push("rqstall 8 900".into());
         if cfg.tier == Tier::Thorough { cases.push("rqcut 6 3".into()); cases.push("rqreuse 6".into()); }
         cases.push("rq 2 1 400 rev l,l".into());
         cases.push("rq 1 4 400 rev l,r,d,u".into());
     }
     for c in &cases {
         let t: Vec<&str> = c.split(' ').collect();
-        if t[0] == "rqcut" || t[0] == "rqreuse" {
+        if t[0] == "rqcut" || t[0] == "rqreuse" || t[0] == "rqstall" {
             let res = rt.block_on(async {
                 tokio::time::timeout(Duration::from_secs(90), async {
-                    if t[0] == "rqcut" { run_cut(addr, &certs, t[1].parse()?, t[2].parse()?).await } else { run_reuse(addr, &certs, t[1].parse()?).await }
+                    if t[0] == "rqcut" { run_cut(addr, &certs, t[1].parse()?, t[2].parse()?).await }
+                    else if t[0] == "rqstall" { run_stall(addr, &certs, t[1].parse()?, t[2].parse()?).await }
+                    else { run_reuse(addr, &certs, t[1].parse()?).await }
                 }).await
             });
             let (imp, mon) = match res {
@@ -244,7 +277,8 @@ pub fn run(cfg: &Cfg) {
                     let mut m = Ok(());
                     for (j, o) in line.split(',').enumerate() {
                         if o.starts_with("wrong") { m = Err(format!("C04: request() returned another request's reply ({o}) [{line}]")); break; }
-                        let want = if t[0] == "rqreuse" && j % 3 == 0 { "timeout" } else { "ok" };
+                        if o == "hang" { m = Err(format!("C04: a request whose reply cannot arrive did not fail with a timeout error: request() never returned [{line}]")); break; }
+                        let want = if (t[0] == "rqreuse" && j % 3 == 0) || t[0] == "rqstall" { "timeout" } else { "ok" };
                         if o != want { m = Err(format!("C04: call {j} ended with {o}, expected {want} [{line}]")); break; }
                     }
                     (line, m)
